@@ -15,7 +15,7 @@ if [ "${1:-}" = "--replay" ]; then
 fi
 prop="${1:?property id}"
 tier="${2:-${VERIF_TIER:-quick}}"
-if [ ! -x bin/xpcheck ] || [ -n "$(find checker -newer bin/xpcheck -name '*.go' -print -quit 2>/dev/null)" ]; then
-  (cd checker && go build -o ../bin/xpcheck ./cmd/xpcheck) || { echo "VIOLATION property=$prop replay=/verif/evidence/$prop.json reason=undecided: checker does not build"; exit 1; }
+if [ ! -x bin/xpcheck ] || [ -n "$(find checker -newer bin/xpcheck -type f \( -name '*.go' -o -name '*.txt' -o -name 'go.mod' -o -name 'go.sum' \) -print -quit 2>/dev/null)" ]; then
+  (cd checker && go build -o ../bin/xpcheck.new.$$ ./cmd/xpcheck && mv ../bin/xpcheck.new.$$ ../bin/xpcheck) || { echo "VIOLATION property=$prop replay=/verif/evidence/$prop.json reason=undecided: checker does not build"; exit 1; }
 fi
 exec bin/xpcheck -property "$prop" -tier "$tier" -repo "$REPO" -evidence-dir /verif/evidence -known /verif/known_findings.json
